@@ -330,7 +330,7 @@ def ref_selfcheck(case):
 
 # ----------------------------------------------------------------------------- driver
 def run(ctx):
-    k = 2 if ctx.quick else 4
+    k = 3 if ctx.quick else 4
     pts = lattice(k)
     adm = [p for p in pts if admissible(p)]
     ctx.space('lattice-points(all)', len(pts))
